@@ -53,13 +53,15 @@ inductive Z5 where
   | mulX1 (x1 : Fe)
   | small (s : Nat)
 
-/-- the body of `for pos in (0usize..255).rev()` -/
-def ladderStep (e : Bytes) (he : e.length = 32) (a24p1 : Nat) (z5k : Z5)
-    (s : Ladder) (pos : Nat) (hp : pos < 255) : Option Ladder := do
-  let b := bitChoice e he pos hp
-  let (x2, x3) := maybe_swap_with s.x2 s.x3 (s.swap.xor b)
-  let (z2, z3) := maybe_swap_with s.z2 s.z3 (s.swap.xor b)
-  let swap := b
+/-- `let z5 = &x1 * &t2;` (curve25519) / `let z5 = t2.mul_small::<9>();` (curve25519_base) -/
+def z5Of (z5k : Z5) (t2 : Fe) : Option Fe :=
+  match z5k with
+  | .mulX1 x1 => mul x1 t2
+  | .small k => mul_small t2 k
+
+/-- the field arithmetic of one loop iteration (`let d = &x3 - &z3; … let z4 = &e * &t4;`),
+    on the registers after the conditional swaps; returns `(x4, z4, x5, z5)` -/
+def ladderArith (a24p1 : Nat) (z5k : Z5) (x2 z2 x3 z3 : Fe) : Option (Fe × Fe × Fe × Fe) := do
   let d ← sub x3 z3
   let b ← sub x2 z2
   let a ← add x2 z2
@@ -76,20 +78,29 @@ def ladderStep (e : Bytes) (he : e.length = 32) (a24p1 : Nat) (z5k : Z5)
   let t3 ← mul_small e a24p1
   let x5 ← square t0
   let t4 ← add bb t3
-  let z5 ← match z5k with
-    | .mulX1 x1 => mul x1 t2
-    | .small k => mul_small t2 k
+  let z5 ← z5Of z5k t2
   let z4 ← mul e t4
-  pure ⟨x4, z4, x5, z5, swap⟩
+  pure (x4, z4, x5, z5)
+
+/-- the body of `for pos in (0usize..255).rev()` once the bit `b` is extracted: the two masked swaps
+    (`swap ^ b`), the arithmetic, `z2 = z4; z3 = z5; x2 = x4; x3 = x5; swap = b` -/
+def ladderStepCore (a24p1 : Nat) (z5k : Z5) (s : Ladder) (b : Choice) : Option Ladder :=
+  (ladderArith a24p1 z5k
+      (maybe_swap_with s.x2 s.x3 (s.swap.xor b)).1 (maybe_swap_with s.z2 s.z3 (s.swap.xor b)).1
+      (maybe_swap_with s.x2 s.x3 (s.swap.xor b)).2 (maybe_swap_with s.z2 s.z3 (s.swap.xor b)).2).map
+    fun r => ⟨r.1, r.2.1, r.2.2.1, r.2.2.2, b⟩
+
+/-- the body of `for pos in (0usize..255).rev()` -/
+def ladderStep (e : Bytes) (he : e.length = 32) (a24p1 : Nat) (z5k : Z5)
+    (s : Ladder) (pos : Nat) (hp : pos < 255) : Option Ladder :=
+  ladderStepCore a24p1 z5k s (bitChoice e he pos hp)
 
 /-- the loop, `pos = 254 down to 0` (`k` = number of iterations still to do) -/
 def ladderLoop (e : Bytes) (he : e.length = 32) (a24p1 : Nat) (z5k : Z5) :
     (k : Nat) → k ≤ 255 → Ladder → Option Ladder
   | 0, _, s => some s
   | k + 1, hk, s =>
-    match ladderStep e he a24p1 z5k s k (by omega) with
-    | none => none
-    | some s' => ladderLoop e he a24p1 z5k k (by omega) s'
+    (ladderStep e he a24p1 z5k s k (by omega)).bind fun s' => ladderLoop e he a24p1 z5k k (by omega) s'
 
 /-- the statements shared by `curve25519` and `curve25519_base` after `x1` is known -/
 def ladderMain (n : Bytes) (hn : n.length = 32) (x1 : Fe) (a24p1 : Nat) (z5k : Z5) : Option Bytes := do
@@ -100,8 +111,8 @@ def ladderMain (n : Bytes) (hn : n.length = 32) (x1 : Fe) (a24p1 : Nat) (z5k : Z
   let z3 := Fe.ONE
   let swap := u64_ct_zero 1
   let s ← ladderLoop e (by rw [clampE_length]; exact hn) a24p1 z5k 255 (by omega) ⟨x2, z2, x3, z3, swap⟩
-  let (x2, _) := maybe_swap_with s.x2 s.x3 s.swap
-  let (z2, _) := maybe_swap_with s.z2 s.z3 s.swap
+  let x2 := (maybe_swap_with s.x2 s.x3 s.swap).1
+  let z2 := (maybe_swap_with s.z2 s.z3 s.swap).1
   let zi ← invert z2
   let r ← mul zi x2
   to_bytes r
